@@ -235,7 +235,16 @@ class RefEval:
             raise RefErr('not a number')
         d = dec_of(v)
         if d.src and d.src != 'negzero' and d.src[0] == 'bv' and d.s == 0:
-            return d.src[1]
+            v = d.src[1]
+            w = v.size()
+            if w == 64:
+                return v
+            if w > 64 and d.src[2]:
+                # a wider bit-vector sourced integer: in range iff it sign-extends from its low 64 bits
+                lo = z3.Extract(63, 0, v)
+                if not self.truth(z3.SignExt(w - 64, lo) == v):
+                    raise RefErr('out of i64 range')
+                return z3.simplify(lo)
         m, s = d.m, d.s
         if not is_sym(m):
             if m % (10 ** s) != 0:
@@ -451,6 +460,8 @@ class RefEval:
                 raise RefErr('assignment target is not a name')
             if op == '=':
                 v = b
+            elif op in self.infix_handlers:
+                v = self.infix_handlers[op](a, b)        # registered assignment-type operator: binds what its handler returns
             else:
                 v = self.infix_calc(op[:-1], a, b)
             env.set_var(un(j['l']['name']), v)
